@@ -16,6 +16,9 @@ type Dim struct {
 	I    int    `json:"i,omitempty"`
 	From int    `json:"from,omitempty"` // -1 = begin
 	To   int    `json:"to,omitempty"`   // -1 = end
+	// Lit: the index (K=i) or the range end (K=range) written as this decimal literal instead of I / To -
+	// for values beyond every array and beyond the machine integers (2^31, 2^32, 2^63, 2^64-1, 10^20)
+	Lit string `json:"lit,omitempty"`
 }
 
 type Pipe struct {
@@ -75,6 +78,10 @@ func (s *Selector) String() string {
 					}
 					switch d.K {
 					case "i":
+						if d.Lit != "" {
+							sb.WriteString(d.Lit)
+							break
+						}
 						sb.WriteString(strconv.Itoa(d.I))
 					case "each":
 						sb.WriteString("each")
@@ -85,6 +92,9 @@ func (s *Selector) String() string {
 						}
 						if d.To >= 0 {
 							to = strconv.Itoa(d.To)
+						}
+						if d.Lit != "" {
+							to = d.Lit
 						}
 						sb.WriteString("(" + from + ":" + to + ")")
 					}
@@ -219,6 +229,33 @@ func deepEq(a, b any) bool {
 
 // Eval evaluates the selector on doc.
 func Eval(s *Selector, doc any) (any, error) {
+	// an index or bound that no machine integer can hold is outside every array: applied to an array it is an
+	// error like any other out-of-range index; whether a selector holding one may already be rejected as a
+	// whole (when the step is never applied, e.g. below a missing key) is left open
+	huge := false
+	for _, p := range s.Parts {
+		for _, st := range p.Steps {
+			for _, d := range st.Dims {
+				if d.Lit != "" {
+					if _, err := strconv.ParseInt(d.Lit, 10, 64); err != nil {
+						huge = true
+					}
+				}
+			}
+		}
+	}
+	if huge {
+		if v, err := evalParts(s, doc); err == nil {
+			_ = v
+			return nil, unspec("a literal beyond the machine integers in a step that is never applied")
+		} else {
+			return nil, err
+		}
+	}
+	return evalParts(s, doc)
+}
+
+func evalParts(s *Selector, doc any) (any, error) {
 	cur := doc
 	for _, p := range s.Parts {
 		v, err := evalSteps(cur, p.Steps)
@@ -375,6 +412,9 @@ func evalDims(a []any, st Step) (any, error) {
 		d := dims[0]
 		switch d.K {
 		case "i":
+			if d.Lit != "" {
+				return nil, mustFail("index %s outside an array of %d", d.Lit, len(arr))
+			}
 			if d.I >= len(arr) {
 				return nil, mustFail("index %d outside an array of %d", d.I, len(arr))
 			}
@@ -390,6 +430,9 @@ func evalDims(a []any, st Step) (any, error) {
 			}
 			return out, nil
 		case "range":
+			if d.Lit != "" {
+				return nil, mustFail("range end %s outside an array of %d", d.Lit, len(arr))
+			}
 			from, to := d.From, d.To
 			if from < 0 {
 				from = 0
